@@ -17,9 +17,9 @@ CONFIG = {
     "budget_s": {"quick": 120, "thorough": 1500},
     "rule": ("ages: exactly-ultrametric trees from dyadic node heights (1-10 leaves quick / <= 40 thorough; polytomies, "
              "unifurcations, zero-length edges, optional root-edge length; a minority with general-float heights = "
-             "ultrametric up to rounding) x ultrametricity_precision {default, 1e-5, 1e-3, 0.25, 1.0, 0, 0.0, None, False, "
-             "-1, -1e-9} x forcing {none, max, min} x perturbation {none; ONE edge (tip or clade) shifted by p/2, p "
-             "(dyadic p only) or 2p; TWO edges shifted in opposite directions by 0.6p..1.5p each} x route "
+             "ultrametric up to rounding) x ultrametricity_precision {default, 1e-9, 1e-7, 1e-5, 1e-3, 1e-2, 0.25, 1.0, 0, 0.0, "
+             "None, False, -1, -1e-9} x forcing {none, max, min} x perturbation {none; ONE edge (tip or clade) shifted by p/4, p/2, p "
+             "(dyadic p only), 2p or 10p; TWO edges shifted in opposite directions by 0.6p..1.5p each} x route "
              "{calc_node_ages (all / internal only), node_ages (all / internal only), internal_node_ages, "
              "calc_node_ages with set_node_age_fn giving non-contemporaneous dyadic tip ages} followed by "
              "set_edge_lengths_from_node_ages on scrambled lengths (minimum_edge_length default/0/None/0.25/1). "
@@ -33,9 +33,11 @@ CONFIG = {
              "value must be the left or right limit; at the deepest tip the left limit, as in the documented LTT "
              "example). stats: general trees (all shapes; strictly binary ones also get Colless) x every "
              "normalisation of Sackin/Colless + N_bar, B1, treeness, Tree.length x a child-order permutation x the "
-             "deprecated Tree.<stat>() aliases. gamma: strictly binary exactly-ultrametric trees with >= 3 leaves "
-             "(dyadic or float heights) against the Pybus-Harvey formula from inter-node intervals, child-order "
-             "permutation, non-ultrametric rejection, and the documented ValueError for non-binary / 2-leaf trees. "
+             "deprecated Tree.<stat>() aliases. gamma: strictly binary trees with >= 3 leaves (dyadic or float heights) x prec {default, "
+             "1e-9 .. 1.0} x spelling {function keyword, function positional, Tree method} x deviation {none; one edge "
+             "shifted by 0.25/0.5 x the CALLER'S prec = must return a value; by 2/4/10 x prec = must raise "
+             "UltrametricityError}: Pybus-Harvey formula from inter-node intervals (exact trees; perturbation bound "
+             "otherwise), child-order permutation, and the documented ValueError for non-binary / 2-leaf trees. "
              "history: ONE tree object (general or ultrametric lengths) is queried (num_lineages_at, root-distance "
              "functions, forced / disabled / checked calc_node_ages, node_ages, resolve_node_depths/ages), modified "
              "through public calls (scale_edges, edge.length assignment, remove_child of a leaf, new_child, "
@@ -61,7 +63,8 @@ CONFIG = {
 }
 
 EULER = 0.57721566490153286060651209
-PRECS = ["default", 1e-5, 1e-3, 0.25, 1.0, 0, 0.0, None, False, -1, -1e-9]
+PRECS = ["default", 1e-9, 1e-7, 1e-5, 1e-3, 1e-2, 0.25, 1.0, 0, 0.0, None, False, -1, -1e-9]
+GAMMA_PRECS = ["default", 1e-9, 1e-7, 1e-5, 1e-3, 1e-2, 0.25, 1.0]   # prec of pybus_harvey_gamma (numeric only: documented)
 MIN_LEAVES = [1, 2, 2, 3, 3, 3, 4]   # lower bound of the drawn leaf count (single-node and two-leaf trees stay in)
 DEFAULT_PRECISION = 1e-5   # documented value of constants.DEFAULT_ULTRAMETRICITY_PRECISION
 
@@ -166,7 +169,7 @@ def age_cases(draw, max_leaves):
         elif p == 0:
             mags = [2.0 ** -20, 2.0 ** -40, 1.0]
         elif family == "one":
-            mags = [0.5 * p, 2.0 * p] + ([p] if dyadic_p else [])
+            mags = [0.25 * p, 0.5 * p, 2.0 * p, 2.0 * p, 10.0 * p] + ([p] if dyadic_p else [])
         elif dyadic_p and draw(st.booleans()):
             mags = [p, p, 0.5 * p, 1.5 * p]          # everything stays a binary fraction: exact comparisons
         else:
@@ -218,23 +221,27 @@ def stat_cases(draw, max_leaves):
 
 @st.composite
 def gamma_cases(draw, max_leaves):
-    kind = draw(st.sampled_from(["ok", "ok", "ok", "ok", "shifted", "nonbinary", "two_leaves"]))
+    """kind: ok = exactly ultrametric; within / beyond = ONE edge shifted by a multiple of the CALLER'S precision that is
+    clearly below (x0.25, x0.5) / clearly above (x2, x4, x10) it, so the verdict depends on the precision passed in."""
+    kind = draw(st.sampled_from(["ok", "ok", "within", "within", "beyond", "beyond", "nonbinary", "two_leaves"]))
     heights = draw(st.sampled_from(["dyadic", "dyadic", "float"]))
     if kind == "nonbinary":
         spec, _ = draw(ultra_specs(3, max_leaves, heights=heights, binary=False, unif=True, zero_ok=False))
     elif kind == "two_leaves":
         spec, _ = draw(ultra_specs(2, 2, heights=heights, binary=True, unif=False, zero_ok=False))
     else:
-        spec, _ = draw(ultra_specs(3, max_leaves, heights=heights, binary=True, unif=False))
-    prec = draw(st.sampled_from(["default", 1e-5, 1e-3, 0.25]))
+        spec, _ = draw(ultra_specs(3, max_leaves, heights=heights, binary=True, unif=False, zero_ok=(kind == "ok")))
+    prec = draw(st.sampled_from(GAMMA_PRECS))
     if draw(st.booleans()):
         spec["len"] = draw(st.sampled_from([0.5, 2.0, 0.0, 3.25]))     # root edge: plays no part in gamma
-    case = {"kind": kind, "spec": spec, "heights": heights, "prec": prec, "alias": draw(st.booleans()),
+    case = {"kind": kind, "spec": spec, "heights": heights, "prec": prec,
+            "spelling": draw(st.sampled_from(["function_keyword", "function_positional", "tree_method"])),
             "perm": shapes.permute_children(draw, spec), "shift": None}
-    if kind == "shifted":
+    if kind in ("within", "beyond"):
         m = len(shapes.spec_nodes(spec)) - 1
         p = DEFAULT_PRECISION if prec == "default" else prec
-        case["shift"] = [draw(st.integers(0, m - 1)), draw(st.sampled_from([2.0 * p, 10.0 * p]))]
+        f = draw(st.sampled_from([0.25, 0.5] if kind == "within" else [2.0, 4.0, 10.0]))
+        case["shift"] = [draw(st.integers(0, m - 1)), draw(st.sampled_from([1, -1])) * f * p]
     return case
 
 
@@ -334,6 +341,13 @@ def route_rejection_miss(ctx, case, worst, p, band, detail):
         ctx.cls("ages:inside_rounding_band_no_verdict")
 
 
+def rounding_band(rt, H):
+    """Bound on the disagreement between two float evaluations of a root-to-tip spread: each side accumulates at most
+    (depth) additions of magnitude <= H, each off by <= 2**-53 relative; 8x margin."""
+    depth = max(rt.depth_edges(i) for i in rt.leaves())
+    return 8 * 2.2e-16 * (1.0 + H) * (1 + depth)
+
+
 def tree_is_exact(rt, extra=()):
     vals = [rt.length[i] for i in rt.nodes() if i != rt.root] + list(extra)
     return all(is_exact(v) for v in vals)
@@ -401,7 +415,7 @@ def check_ages(ctx, case):
     H = max([abs(x) for x in tip_sum] + [dep[i] for i in leaves])
     spread = max(tip_sum) - min(tip_sum)
     exact = tree_is_exact(pre, extra=([p] if p is not None else []) + (list(leaf_age.values()) if leaf_age else []))
-    band = 0.0 if exact else 1e-13 * (1.0 + H) * (1 + len(nodes))
+    band = 0.0 if exact else rounding_band(pre, H)
     lo, hi = ref_tip_ranges(pre, leaf_age)
     checked = p is not None and force is None
     must_reject = checked and spread > p + band
@@ -1032,6 +1046,7 @@ def check_stats(ctx, case):
 # ---------------------------------------------------------------------------
 
 def ref_gamma(rt):
+    """-> (gamma, T, c) from the farthest-tip ages, or None when the total is zero."""
     lo, hi = ref_tip_ranges(rt)
     n = rt.n_leaves()
     ages = sorted((hi[i] for i in rt.internals()), reverse=True)
@@ -1047,7 +1062,8 @@ def ref_gamma(rt):
     acc = 0.0
     for i in range(2, n):
         acc += sum(k * g[k] for k in range(2, i + 1))
-    return (acc / (n - 2.0) - T / 2.0) / (T * math.sqrt(1.0 / (12.0 * (n - 2.0))))
+    c = math.sqrt(1.0 / (12.0 * (n - 2.0)))
+    return (acc / (n - 2.0) - T / 2.0) / (T * c), T, c
 
 
 def check_gamma(ctx, case):
@@ -1060,23 +1076,33 @@ def check_gamma(ctx, case):
     tree, pre = build(spec)
     n = pre.n_leaves()
     binary = all(len(pre.children[i]) == 2 for i in pre.internals())
-    tag = "kind=%s prec=%r tree=%s" % (kind, case["prec"], pre.canon(ordered=True, lengths=True))
+    prec = case["prec"]
+    if "spelling" not in case:       # replay files written before the spelling field existed
+        case = dict(case, spelling="tree_method" if case.get("alias") else "function_keyword")
+    p = DEFAULT_PRECISION if prec == "default" else float(prec)
+    tag = "kind=%s prec=%r spelling=%s shift=%r tree=%s" % (kind, prec, case["spelling"], case["shift"],
+                                                           pre.canon(ordered=True, lengths=True))
     ctx.cls("gamma:kind:%s" % kind)
     ctx.cls("gamma:heights:%s" % case["heights"])
+    ctx.cls("gamma:prec:%r" % (prec,))
+    ctx.cls("gamma:spelling:%s" % case["spelling"])
     if pre.length[pre.root]:
         ctx.cls("gamma:root_edge_has_length")
-    args = () if case["prec"] == "default" else (case["prec"],)
 
     def call(t):
-        if case["alias"]:
+        if case["spelling"] == "tree_method":
             with warnings.catch_warnings():
                 warnings.simplefilter("ignore")
-                return ctx.call("C17.gamma", t.pybus_harvey_gamma, *args, _allowed=(ValueError,))
-        if args:
-            return ctx.call("C17.gamma", tm.pybus_harvey_gamma, t, prec=args[0], _allowed=(ValueError,))
-        return ctx.call("C17.gamma", tm.pybus_harvey_gamma, t, _allowed=(ValueError,))
+                if prec == "default":
+                    return ctx.call("C17.gamma", t.pybus_harvey_gamma, _allowed=(ValueError,))
+                return ctx.call("C17.gamma", t.pybus_harvey_gamma, prec, _allowed=(ValueError,))
+        if prec == "default":
+            return ctx.call("C17.gamma", tm.pybus_harvey_gamma, t, _allowed=(ValueError,))
+        if case["spelling"] == "function_positional":
+            return ctx.call("C17.gamma", tm.pybus_harvey_gamma, t, prec, _allowed=(ValueError,))
+        return ctx.call("C17.gamma", tm.pybus_harvey_gamma, t, prec=prec, _allowed=(ValueError,))
     if n >= 3:
-        ctx.nontrivial(["gamma", pre.canon(ordered=True, lengths=True), repr(case["prec"]), case["alias"]])
+        ctx.nontrivial(["gamma", pre.canon(ordered=True, lengths=True), repr(prec), case["spelling"]])
     if kind in ("nonbinary", "two_leaves"):
         if kind == "nonbinary" and binary:
             ctx.cls("gamma:nonbinary_draw_was_binary")
@@ -1089,35 +1115,61 @@ def check_gamma(ctx, case):
                 return
             ctx.fail("gamma_outside_domain_raises_ValueError", "C17.gamma_domain", "returned %r; %s" % (g, tag))
             return
-    if kind == "shifted":
-        dep = ref_depths(pre)
-        tips = [dep[i] for i in pre.leaves()]
-        p = DEFAULT_PRECISION if case["prec"] == "default" else case["prec"]
-        if max(tips) - min(tips) <= 1.5 * p:
-            ctx.cls("gamma:shift_covers_all_tips")
-            kind = "ok"
-        else:
-            try:
-                g = call(tree)
-            except ValueError as e:
-                ctx.cls("gamma:non_ultrametric_rejected")
-                ctx.check(isinstance(e, error.UltrametricityError), "rejection_is_an_UltrametricityError", "C17.error_type", tag)
-                return
-            ctx.fail("gamma_rejects_non_ultrametric_tree", "C17.gamma_reject", "returned %r; %s" % (g, tag))
-            return
-    want = ref_gamma(pre)
-    if want is None:
+
+    # what the caller's precision demands, from explicit root-to-tip sums
+    dep = ref_depths(pre)
+    tips = [dep[i] for i in pre.leaves()]
+    H = max(tips)
+    spread = max(tips) - min(tips)
+    exact = tree_is_exact(pre, extra=[p])
+    band = 0.0 if exact else rounding_band(pre, H)
+    must_reject = spread > p + band
+    must_accept = spread <= p - band
+    if spread > band:
+        rel = "below_caller_prec" if must_accept else "above_caller_prec" if must_reject else "borderline"
+        versus_default = "below_default" if spread <= DEFAULT_PRECISION else "above_default"
+        ctx.cls("gamma:deviation:%s:%s" % (rel, versus_default))
+    ref = ref_gamma(pre)
+    if ref is None:
         ctx.cls("gamma:zero_total_length_skipped")
         return
+    want, T, c = ref
     try:
         g = call(tree)
     except ValueError as e:
-        ctx.fail("gamma_defined_on_binary_ultrametric_tree", "C17.gamma_accept", "%s: %s; %s" % (type(e).__name__, str(e)[:200], tag))
+        ctx.cls("gamma:outcome:rejected")
+        ctx.check(isinstance(e, error.UltrametricityError), "rejection_is_an_UltrametricityError", "C17.error_type",
+                  lambda: "%s: %s; %s" % (type(e).__name__, str(e)[:150], tag))
+        if must_accept:
+            ctx.fail("gamma_defined_on_tree_ultrametric_within_prec", "C17.gamma_accept",
+                     "root-to-tip spread %r <= prec %r but %s: %s; %s" % (spread, p, type(e).__name__, str(e)[:120], tag))
+        return
+    ctx.cls("gamma:outcome:value")
+    if must_reject:
+        worst = local_first_child_deviation(pre)
+        route_rejection_miss(ctx, case, worst, p, band,
+                             "gamma returned %r although root-to-tip spread %r > prec %r (largest first-child-vs-sibling "
+                             "difference %r); %s" % (g, spread, p, worst, tag))
         return
     if n >= 4:
-        ctx.sample("gamma_ok", case)
-    ctx.check(isinstance(g, float) and close(g, want, 0.0, 1e-9), "gamma_equals_pybus_harvey_formula", "C17.gamma_value",
-              lambda: "got %r want %r; %s" % (g, want, tag))
+        ctx.sample("gamma_%s" % kind, case)
+    if spread <= band:
+        ctx.check(isinstance(g, float) and close(g, want, 0.0, 1e-9), "gamma_equals_pybus_harvey_formula", "C17.gamma_value",
+                  lambda: "got %r want %r; %s" % (g, want, tag))
+    else:
+        # ages may lie anywhere between nearest and farthest tip: every age moves by <= delta, every interval by
+        # <= 2 delta, T by <= n(n+1) delta, the numerator by <= 1.5 times that
+        delta = spread + band
+        dT = n * (n + 1) * delta
+        ok = isinstance(g, float) and g == g and abs(g) != float("inf")
+        if ok and dT <= 0.5 * T:
+            bound = (1.5 * dT + abs(want) * c * dT) / (c * (T - dT)) + 1e-9
+            ok = abs(g - want) <= bound
+            ctx.cls("gamma:perturbed_value_bounded")
+        else:
+            bound = None
+        ctx.check(ok, "gamma_of_tree_within_prec_close_to_formula", "C17.gamma_value_perturbed",
+                  lambda: "got %r want %r +- %r; %s" % (g, want, bound, tag))
     if not case["shift"]:
         tree2, pre2 = build(case["perm"])
         if pre2.canon(lengths=True) != pre.canon(lengths=True):
